@@ -53,6 +53,8 @@ ASSERTS = [
     ("unpack_intmod", "PackIntMod({m}).unpack({i}.to_bits(({m} - 1).bit_length()), 0)"),
     ("pack_intmod", "PackIntMod({m}).pack({i})"),
     ("unpack_wires", "PackIntMod({m}).unpack([{i}, {i}, {i}][:({m} - 1).bit_length()], 0)"),
+    ("unpack_wires_mixed", "PackIntMod({m}).unpack([{i}, {B}, {i}, 1][:({m} - 1).bit_length()], 0)"),
+    ("unpack_wires_mixed2", "PackIntMod({m}).unpack([{i}, {i}, {B}, {B}][:({m} - 1).bit_length()], 0)"),
     ("unpack_list_mixed", "PackList([PackBool(), PackIntMod({m})]).unpack([1] + {i}.to_bits(({m} - 1).bit_length()), 0)"),
 ]
 # fresh boolean declarations: the wire is allocated inside the operation, left unknown, and must be exactly {0,1}
@@ -144,6 +146,12 @@ def make_case(tid, tmpl, bl, rnd):
         # same modulus in both slots; value below 2^bitlen so that the decomposition itself is valid
         cs = [cs[0], cs[0]]
         ins[0] = rnd.randint(0, (1 << (cs[0] - 1).bit_length()) - 1)
+    if tid in ("unpack_wires_mixed", "unpack_wires_mixed2"):
+        # a field whose bits are partly circuit wires and partly plain 0/1 integers
+        cs = [rnd.choice([3, 5, 6, 7, 9, 11, 12, 13, 16]), rnd.choice(["0", "1"]), 0] if tid == "unpack_wires_mixed" else \
+             [rnd.choice([3, 5, 6, 7, 9, 11, 12, 13, 16]), rnd.choice(["0", "1"]), rnd.choice(["0", "1"]), 0]
+        cs[-1] = cs[0]
+        ins = [rnd.choice([0, 1, 0, 1, 2, 3]) for _ in ins]
     if tid == "unpack_wires":
         # plain secret wires handed in as bits (they may not be bits): what is enforced is the value they add up to
         cs = [rnd.choice([2, 3, 4, 5, 6, 7, 8])] * 2
